@@ -16,6 +16,7 @@ import (
 	"testing/synctest"
 	"time"
 
+	pb "github.com/libp2p/go-libp2p-pubsub/pb"
 	"github.com/libp2p/go-libp2p/core/host"
 	"github.com/libp2p/go-libp2p/core/network"
 	"github.com/libp2p/go-libp2p/core/peer"
@@ -48,6 +49,27 @@ type vfCall struct {
 	err   string
 }
 
+// vfParkTracer parks the event loop inside the application's tracer at a delivery (the loop is busy delivering a message
+// while the node is shut down and the application goes on calling the API).
+type vfParkTracer struct {
+	mu   sync.Mutex
+	gate chan struct{}
+}
+
+func (tr *vfParkTracer) Trace(evt *pb.TraceEvent) {
+	if evt.GetType() != pb.TraceEvent_DELIVER_MESSAGE {
+		return
+	}
+	tr.mu.Lock()
+	g := tr.gate
+	tr.mu.Unlock()
+	if g != nil {
+		<-g
+	}
+}
+
+var vfShutdownParked bool
+
 func vfShutdownHistory(t *testing.T, rng *rand.Rand, router int, hammer bool, congested bool, heldVal bool) (rec map[string]any, stuck []string, leaked string, panicked string) {
 	var calls []*vfCall
 	var mu sync.Mutex
@@ -69,10 +91,14 @@ func vfShutdownHistory(t *testing.T, rng *rand.Rand, router int, hammer bool, co
 			ctxB, cancelB := context.WithCancel(context.Background())
 			defer cancelB()
 			hosts := vfHosts(t, 3)
+			park := &vfParkTracer{}
 			mk := func(ctx context.Context, i int) *PubSub {
 				var ps *PubSub
 				var err error
 				opts := []Option{WithMessageSignaturePolicy(StrictNoSign), WithMessageIdFn(vfMsgID)}
+				if vfShutdownParked && i == 0 {
+					opts = append(opts, WithEventTracer(park))
+				}
 				var hst host.Host = hosts[i]
 				if congested && i == 0 {
 					// a third peer to which no stream can be opened (the network stalls): its one-slot outbound queue stays
@@ -185,6 +211,48 @@ func vfShutdownHistory(t *testing.T, rng *rand.Rand, router int, hammer bool, co
 					cancelA()
 					cancelled = true
 					cancelAt = -1
+				}
+			}
+			if vfShutdownParked {
+				// the event loop is inside a delivery (parked in the application's tracer) when the context is cancelled; the
+				// application cancels its subscriptions and calls the API; then the delivery goes on
+				tp, err := psA.Join("tp")
+				if err == nil {
+					var ss []*Subscription
+					for k := 0; k < 1+rng.Intn(2); k++ {
+						if s, err := tp.Subscribe(); err == nil {
+							ss = append(ss, s)
+						}
+					}
+					synctest.Wait()
+					g := make(chan struct{})
+					park.mu.Lock()
+					park.gate = g
+					park.mu.Unlock()
+					start("Publish (its delivery is parked in the tracer)", func() error {
+						c, cc := callCtx()
+						defer cc()
+						tp.Publish(c, []byte("9000:parked"))
+						return nil
+					})
+					synctest.Wait()
+					cancelA()
+					cancelled = true
+					cancelAt = -1
+					if rng.Intn(2) == 0 {
+						synctest.Wait()
+					}
+					for _, s := range ss {
+						s := s
+						start("Subscription.Cancel (delivery in progress)", func() error { s.Cancel(); return nil })
+					}
+					start("Topic.Close (delivery in progress)", func() error { tp.Close(); return nil })
+					synctest.Wait()
+					park.mu.Lock()
+					park.gate = nil
+					park.mu.Unlock()
+					close(g)
+					synctest.Wait()
 				}
 			}
 			if hammer {
@@ -487,9 +555,10 @@ func TestVF_Shutdown(t *testing.T) {
 	for c := 0; c < ncases; c++ {
 		router := c % 3
 		// the history about to run is kept on disk, so that a crash of the process can be attributed to it
-		if js, err := json.Marshal(map[string]any{"history": c, "router": router, "hammer": c%2 == 1, "congested_peer": c%5 == 4, "seed": os.Getenv("VERIF_SEED")}); err == nil {
+		if js, err := json.Marshal(map[string]any{"history": c, "router": router, "hammer": c%2 == 1, "congested_peer": c%5 == 4, "delivery_parked_in_tracer_at_cancellation": c%10 == 8, "seed": os.Getenv("VERIF_SEED")}); err == nil {
 			os.WriteFile(filepath.Join(vfOutDir(t), "c14_last_input.json"), js, 0o644)
 		}
+		vfShutdownParked = c%10 == 8
 		rec, stuck, leaked, pan := vfShutdownHistory(t, rng, router, c%2 == 1 && c%6 != 3, c%5 == 4 && c%6 != 3, c%6 == 3)
 		for _, s := range rec["calls"].([]string) {
 			ncalls++
@@ -517,6 +586,6 @@ func TestVF_Shutdown(t *testing.T) {
 	os.Remove(filepath.Join(vfOutDir(t), "c14_last_input.json"))
 	cs.extra["api_calls_started"] = ncalls
 	cs.extra["api_calls_started_after_cancellation"] = nafter
-	cs.flush("random concurrent API workloads (Join, Subscribe, Publish, AddToBatch + PublishBatch, Relay and relay-cancel, RegisterTopicValidator with a slow validator, EventHandler + NextPeerEvent, ListPeers / GetTopics, BlacklistPeer, Subscription.Cancel / Next, Topic.Close) on a node of a two-node network with traffic from the other node (every second history with eight callers hammering ListPeers / GetTopics across the cancellation, every sixth with publications held inside a validator that waits for its context, every fifth with a third peer to which no stream can be opened and a one-slot outbound queue, so that announcements are refused and retried), on floodsub / randomsub / gossipsub; the node's context is cancelled at a random position (sometimes without letting the bubble settle first); every call started before or after it must have returned one virtual minute later, nothing may panic, and after the other node and the hosts are closed no goroutine of the bubble may remain; " +
+	cs.flush("random concurrent API workloads (Join, Subscribe, Publish, AddToBatch + PublishBatch, Relay and relay-cancel, RegisterTopicValidator with a slow validator, EventHandler + NextPeerEvent, ListPeers / GetTopics, BlacklistPeer, Subscription.Cancel / Next, Topic.Close) on a node of a two-node network with traffic from the other node (every second history with eight callers hammering ListPeers / GetTopics across the cancellation, every sixth with publications held inside a validator that waits for its context, every tenth with the event loop parked inside a delivery (in the application's tracer) when the context is cancelled and the subscriptions are cancelled before the delivery goes on, every fifth with a third peer to which no stream can be opened and a one-slot outbound queue, so that announcements are refused and retried), on floodsub / randomsub / gossipsub; the node's context is cancelled at a random position (sometimes without letting the bubble settle first); every call started before or after it must have returned one virtual minute later, nothing may panic, and after the other node and the hosts are closed no goroutine of the bubble may remain; " +
 		"non-trivial = more than 5 API calls in the history; distinct = index")
 }
